@@ -9,7 +9,7 @@ import (
 )
 
 // C20: Clone returns an equal, fully independent copy.
-// opcode 2001: desc payload padsize;  2002: desc payload padsize [pre-ops] (Set/Del calls applied before Clone).  Observable: the clone, and for CSRC / each extension value /
+// opcode 2001: desc payload padsize;  2002: desc payload padsize [pre-ops] (Set/Del calls applied before Clone);  2003: xwire (the packet Unmarshal makes of it).  Observable: the clone, and for CSRC / each extension value /
 // payload whether the clone's slice is disjoint from the original's memory (1) or shares it (0).
 
 func u32Overlap(a, b []uint32) bool {
@@ -50,26 +50,50 @@ func clonePayload(payload []byte) []byte {
 func runClone(d hdrDesc, payload []byte, pad int, pre []Tok) Outcome {
 	var o Outcome
 	o.Tags = hdrTags(d)
-	h, err := d.build()
-	if err != nil {
+	if _, err := d.build(); err != nil {
 		o.Impl = T(98, Unit)
 		return o
 	}
-	applyPreOps(&h, pre)
-	h.PayloadOffset = 7
-	orig := &rtp.Packet{Header: h, Payload: clonePayload(payload), PaddingSize: byte(pad)}
+	mk := func() *rtp.Packet {
+		h, _ := d.build()
+		applyPreOps(&h, pre)
+		h.PayloadOffset = 7
+		return &rtp.Packet{Header: h, Payload: clonePayload(payload), PaddingSize: byte(pad)}
+	}
 	if payload == nil {
 		o.Tags = append(o.Tags, "nil payload")
 	}
 	if len(pre) > 0 {
-		o.Tags = append(o.Tags, fmt.Sprintf("pre-ops, %d elements left", len(h.GetExtensionIDs())))
+		o.Tags = append(o.Tags, fmt.Sprintf("pre-ops, %d elements left", len(mk().GetExtensionIDs())))
 	}
+	return runCloneOf(o, mk)
+}
+
+// runCloneFromWire clones a packet that Unmarshal produced: its element list can hold what no
+// SetExtension call creates (a one-byte element with id 0, a legacy value), its slices alias the wire.
+func runCloneFromWire(wire []byte) Outcome {
+	var o Outcome
+	probe := &rtp.Packet{}
+	if err := probe.Unmarshal(append([]byte{}, wire...)); err != nil {
+		o.Impl = T(97, Unit)
+		return o
+	}
+	o.Tags = []string{"from wire"}
+	return runCloneOf(o, func() *rtp.Packet {
+		p := &rtp.Packet{}
+		_ = p.Unmarshal(append([]byte{}, wire...))
+		return p
+	})
+}
+
+func runCloneOf(o Outcome, mk func() *rtp.Packet) Outcome {
+	orig := mk()
 	var cl *rtp.Packet
 	if pn, what := catch(func() { cl = orig.Clone() }); pn {
 		o.Impl, o.Fail = PanicV(), "Clone panicked: "+what
 		return o
 	}
-	o.Nontrivial = len(d.csrc) > 0 || d.ext || len(payload) > 0
+	o.Nontrivial = len(orig.CSRC) > 0 || orig.Extension || len(orig.Payload) > 0
 	extFlags := VList{}
 	ids := orig.GetExtensionIDs()
 	for _, id := range ids {
@@ -84,6 +108,12 @@ func runClone(d hdrDesc, payload []byte, pad int, pre []Tok) Outcome {
 	hc := orig.Header.Clone()
 	if !hdrEquivalent(&orig.Header, &hc) {
 		o.Fail = "Header.Clone differs from the original"
+	}
+	// equal also in what it serialises to (elements that have no accessor-visible id of their own included)
+	if bo, eo := orig.Marshal(); true {
+		if bc, ec := cl.Marshal(); (eo == nil) != (ec == nil) || !bytes.Equal(bo, bc) {
+			o.Fail = fmt.Sprintf("the clone serialises to %x (err %v), the original to %x (err %v)", bc, ec, bo, eo)
+		}
 	}
 	// every single mutation of one side leaves the other as it was
 	type mut struct {
@@ -121,7 +151,7 @@ func runClone(d hdrDesc, payload []byte, pad int, pre []Tok) Outcome {
 	}
 	for _, m := range muts {
 		for side := 0; side < 2; side++ {
-			a := &rtp.Packet{Header: func() rtp.Header { hh, _ := d.build(); applyPreOps(&hh, pre); return hh }(), Payload: clonePayload(payload), PaddingSize: byte(pad)}
+			a := mk()
 			b := a.Clone()
 			target, other := a, b
 			if side == 1 {
@@ -161,12 +191,31 @@ func runClone(d hdrDesc, payload []byte, pad int, pre []Tok) Outcome {
 func init() {
 	register(&Prop{
 		ID:       "C20",
-		Rule:     "well-formed packets as in C01 with every field populated, with and without a payload slice (nil), a third of the extension-carrying headers with a Set/Del history before the clone (element list emptied or shrunk); observable = the clone and, per slice, whether its memory is disjoint from the original's; oracle = equality incl. padding size and PayloadOffset, then every single mutation (payload bytes, each CSRC entry, each extension value byte, SetExtension / DelExtension of each id, SetExtension of a new id) applied to the original and to the clone, each followed by a SetExtension on the other side; non-trivial = has CSRCs, an extension or a payload",
+		Rule:     "well-formed packets as in C01 with every field populated, one in eight taken from Unmarshal of a wire image (plus fixed wires with one-byte id-0 elements, in-block padding, legacy and empty blocks), with and without a payload slice (nil), a third of the extension-carrying headers with a Set/Del history before the clone (element list emptied or shrunk); observable = the clone and, per slice, whether its memory is disjoint from the original's; oracle = equality incl. padding size and PayloadOffset, then every single mutation (payload bytes, each CSRC entry, each extension value byte, SetExtension / DelExtension of each id, SetExtension of a new id) applied to the original and to the clone, each followed by a SetExtension on the other side; non-trivial = has CSRCs, an extension or a payload",
 		Quick:    3000,
 		Thorough: 100000,
 		Gen: func(r *RNG, tier string, n int, emit func(op int, toks ...Tok)) {
+			// packets that only Unmarshal can produce: one-byte elements with id 0, padding bytes in the block,
+			// a legacy block, RTP padding - cloned as they come off the wire
+			hdr12 := []byte{0x90, 0x60, 0, 1, 0, 0, 0, 2, 0, 0, 0, 3}
+			for _, blk := range [][]byte{
+				{0xBE, 0xDE, 0, 1, 0x01, 0xAA, 0xBB, 0x00},
+				{0xBE, 0xDE, 0, 2, 0x50, 0x11, 0x01, 0xAA, 0xBB, 0x30, 0xCC, 0x00},
+				{0xBE, 0xDE, 0, 2, 0x00, 0x0F, 1, 2, 3, 4, 5, 6},
+				{0x10, 0x00, 0, 1, 0x07, 0x00, 0x00, 0x00},
+				{0x12, 0x34, 0, 1, 9, 8, 7, 6},
+				{0xBE, 0xDE, 0, 0},
+			} {
+				w := append(append(append([]byte{}, hdr12...), blk...), 0x99, 0x98)
+				emit(2003, TBytes(w))
+			}
+			emit(2003, TBytes([]byte{0xA0, 0x60, 0, 1, 0, 0, 0, 2, 0, 0, 0, 3, 0x99, 0, 0, 3}))
 			for i := 0; i < n; i++ {
 				c := r.Fork(uint64(i))
+				if c.Intn(8) == 0 {
+					emit(2003, TBytes(wfWire(c)))
+					continue
+				}
 				d, pl, pad := genWfPacket(c)
 				if c.Intn(6) == 0 {
 					pl = nil // no payload slice at all (padding-only packets are built like this)
@@ -189,6 +238,9 @@ func init() {
 			}
 		},
 		Run: func(op int, toks []Tok) Outcome {
+			if op == 2003 {
+				return runCloneFromWire(tokBytes(toks[0]))
+			}
 			var pre []Tok
 			if op == 2002 {
 				pre = tokList(toks[3])
